@@ -89,7 +89,37 @@ def forced_cases():
                     out.append({"kind": "pixdoc", "shape": name, "mode": mode, "depth": depth, "size": [W, H], "plane": plane,
                                 "compression": ["RAW", "RLE", "ZIP", "ZIP_WITH_PREDICTION"][(depth // 8 + len(name)) % 4],
                                 "store": "plain", "edit": edit, "recipe": cc.name_nodes(copy.deepcopy(recipe))})
+    # the witness of Props/C17Pixels.lean `flatten_uses_alpha_not_shape`: a black layer of opacity 128 over empty canvas is stored as 127
+    out.append({"kind": "pixdoc", "shape": "witness-black-128", "mode": "L", "depth": 8, "size": [1, 1], "plane": False,
+                "compression": "RAW", "store": "plain", "edit": "touch",
+                "recipe": cc.name_nodes([_pix((0, 0, 1, 1), [0], None, opacity=128)])})
     return out
+
+
+def rounding_law_requests(rng):
+    """(requests, expected answers from NumPy): np.round is half-to-even on exact ties (scale 256: (2k+1)/512 * 256 = k + 1/2
+    exactly, in float32 too), the real scales on float32 values, np.clip outside [0, 1]; np.float32 of doubles = `f32Bits`"""
+    reqs, exp = [], []
+    for k in range(0, 256):
+        v = np.float32((2 * k + 1) / 512.0)
+        reqs.append(("mergedpx.code", 256, f"{2 * k + 1}/512"))
+        exp.append(str(int(np.round(np.clip(v, 0.0, 1.0) * 256))))
+    for scale in (255, 65535):
+        for k in list(range(0, scale + 1, max(1, scale // 97))) + [scale]:
+            v = np.float32(k / scale)
+            reqs.append(("mergedpx.code", scale, f32_rat(v)))
+            exp.append(str(int(np.round(np.clip(v, 0.0, 1.0) * scale))))
+        for v in (-0.25, 1.5, -1e-9, 1.0000001):
+            reqs.append(("mergedpx.code", scale, f32_rat(v)))
+            exp.append(str(int(np.round(np.clip(np.float32(v), 0.0, 1.0) * scale))))
+    vals = [rng.random() for _ in range(200)] + [rng.random() * 2.0 ** -rng.randrange(1, 150) for _ in range(100)] + \
+           [0.0, 1.0, 0.5, 1 / 3, 2.0 ** -126, 2.0 ** -127, 2.0 ** -149, 2.0 ** -150, 1.5 * 2.0 ** -149, 3.0, 1e30, 255.0, -0.75]
+    for x in vals:
+        f = Fraction(x)
+        reqs.append(("mergedpx.f32", f"{f.numerator}/{f.denominator}"))
+        with np.errstate(all="ignore"):
+            exp.append(str(int(np.array([x], dtype=np.float64).astype(np.float32).view(np.uint32)[0])))
+    return reqs, exp
 
 
 def random_case(rng, nprng):
